@@ -107,6 +107,7 @@ def tlc_env(xmx="3g"):
 
 VERDICT_RE = re.compile(r'^<<"(?:VERDICT|CONF)", "(.*)">>$')
 STATS_RE = re.compile(r'^<<"STATS", "(.*)">>$')
+COVER_RE = re.compile(r'^<<"COVER", "(.*)">>$')
 END_RE = re.compile(r'^<<"TRACE-END", (\d+), (\d+)>>')
 
 
@@ -131,7 +132,12 @@ def run_trace_tlc(work, spec, trace_file, kvcfg, tag, cfgname=None, timeout=1800
     r = subprocess.run(cmd, cwd=SPEC, env=env, stdout=subprocess.PIPE, stderr=subprocess.STDOUT, text=True)
     shutil.rmtree(meta, ignore_errors=True)
     verdicts, consumed, total, states, mstats = [], None, None, 0, {}
+    cover = []
     for line in r.stdout.splitlines():
+        m = COVER_RE.match(line.strip())
+        if m:
+            cover = json.loads(_unescape(m.group(1)))
+            continue
         m = STATS_RE.match(line.strip())
         if m:
             mstats = json.loads(_unescape(m.group(1)))
@@ -149,7 +155,7 @@ def run_trace_tlc(work, spec, trace_file, kvcfg, tag, cfgname=None, timeout=1800
     if consumed is None or consumed != total or "Error:" in r.stdout:
         tail = "\n".join(l for l in r.stdout.splitlines() if not l.startswith(("/\\", "State "))) [-3000:]
         raise ToolError("trace validation did not consume the trace (%s/%s) for %s:\n%s" % (consumed, total, trace_file, tail))
-    return dict(verdicts=verdicts, consumed=consumed, total=total, states=states, mstats=mstats)
+    return dict(verdicts=verdicts, consumed=consumed, total=total, states=states, mstats=mstats, cover=cover)
 
 
 def validate_traces(work, spec, trace_files, kvcfg, tag="v", extra_env=None, cfgname=None):
@@ -170,7 +176,7 @@ def run_mc(work, module, cfg, tag, workers=8, timeout=1500, simulate=None):
     cmd = ["timeout", str(timeout), "tlc", "-workers", str(workers), "-metadir", meta, "-noGenerateSpecTE", "-cleanup",
            "-coverage", "1", "-config", cfg]
     if simulate:
-        cmd += ["-simulate", simulate]
+        cmd += ["-simulate", simulate, "-depth", "400"]
     cmd += [module + ".tla"]
     t0 = time.time()
     r = subprocess.run(cmd, cwd=SPEC, env=env, stdout=subprocess.PIPE, stderr=subprocess.STDOUT, text=True)
@@ -181,10 +187,14 @@ def run_mc(work, module, cfg, tag, workers=8, timeout=1500, simulate=None):
     if m:
         transitions, states = int(m.group(1)), int(m.group(2))
     violated = re.findall(r"(?:Invariant|property) (\S+) (?:is|was) violated", out)
+    cover = []
+    mc_ = re.search(r'^<<"COVER", "(.*)">>$', out, re.M)
+    if mc_:
+        cover = json.loads(_unescape(mc_.group(1)))
     ok = ("Model checking completed. No error has been found." in out) or (simulate and r.returncode in (0, 124) and not violated and "Error:" not in out)
     never = re.findall(r"^<(\w+) line \d+, col \d+ to line \d+, col \d+ of module \w+>: 0:0", out, re.M)
     return dict(ok=bool(ok), states=states, transitions=transitions, out=out, violated=violated,
-                wall=time.time() - t0, never_taken=never, rc=r.returncode)
+                wall=time.time() - t0, never_taken=never, rc=r.returncode, cover=cover)
 
 
 # ---- traces ----------------------------------------------------------------
